@@ -1,7 +1,7 @@
 // C10 — optimisers never end worse than they start, converge when convex, respect bounds
 // VF-VARIANT: san
-// VF-RULE: E2: every index of each stated configuration product is one complete optimiser run (init + optimize, executed twice) on a fresh optimiser and a fresh harness objective that records every point it is evaluated at; spaces "run:<optimiser>:n<dim>:<slice>" are products objective x start x constraint set x policy x tolerance x budget (x interval/direction variant for the 1-D optimisers), "bracket:*" are products objective x initial pair. A case is non-trivial when the run returned normally and moved away from its start.
-// VF-BOUND: dimensions 1..3 (quick) / 1..6 (thorough); quadratics c + (x-m)'Q(x-m)/2 with Q from a finite set of integer SPD matrices (diag with kappa in {1,10,100,1000}, [[2,+-1],[+-1,2]]*{1,100}, tridiagonal(2,-1), L L' with L unit lower 0/1) and m on {-1,0,1.5}^n, c in {0,1}; non-quadratics sum cosh, quartic+quadratic, log-sum-exp; starts on {-2,0.5,3}^n (complete for n<=2, 5 patterns above; n=1 also -0.1, whose first simplex straddles the minimiser 0 symmetrically), minimiser lattice complete for n<=1 (quick) / n<=3 (thorough); constraints {none, box [-4,4]^n, box with the minimiser on a face}; policies keep/auto/ignore; tolerances {1e-4,1e-6,1e-8,1e-10}; budgets {10,50,5000}; three slices per optimiser and dimension (all objectives x tolerances unconstrained; constraint sets x policies; budgets) instead of the full product; "random" quadratics/starts replaced by these lattices
+// VF-RULE: E2: every index of each stated configuration product is one complete optimiser run (init + optimize; every 8th index executed twice on fresh objects and compared bit for bit) on a fresh optimiser and a fresh harness objective that records every point it is evaluated at; spaces "run:<optimiser>:n<dim>:<slice>" are products objective x start x constraint set x policy x tolerance x budget x interval/direction variant, "bracket:*" are products objective x initial pair. A case is non-trivial when the run returned normally and moved away from its start.
+// VF-BOUND: 14 optimiser configurations (BFGS, conjugate gradient, Powell, downhill simplex, SimpleMulti, SimpleNewtonMulti, 3 meta-optimiser compositions, Brent outward/inward, golden section, Newton 1-D, Newton backtracking); dimensions 1..3 (quick) / 1..6 (thorough); quadratics c + (x-m)'Q(x-m)/2 with Q from a finite set of integer SPD matrices (diag with kappa in {1,10,100,1000}, [[2,+-1],[+-1,2]]*{1,100}, tridiagonal(2,-1), L L' with L unit lower 0/1), m on {-1,0,1.5}^n (complete for n<=1 quick / n<=3 thorough, 5 patterns above), c in {0,1}; non-quadratics sum-cosh, quartic+quadratic, log-sum-exp; starts on {-2,0.5,3}^n (complete for n<=2, 5 patterns above; n=1 also -0.1, whose first simplex/interval straddles the minimiser 0 symmetrically); constraints {none, box [-4,4]^n, box with the minimiser on a face}; policies keep/auto/ignore; tolerances {1e-4,1e-6,1e-8,1e-10}; budgets {10,50,5000}; three slices per optimiser and dimension (all objectives x all tolerances unconstrained; reduced objectives x constraint sets x policies; reduced objectives x small budgets) instead of the full product; "random" quadratics/starts replaced by these lattices
 // VF-LEVEL: exhaustive over the stated finite configuration spaces on the real optimiser classes: descent, returned-value consistency and feasibility of every recorded evaluation judged exactly (no tolerance beyond 4 ulp on descent), budget judged on the optimiser's own evaluation counter at every step, convergence judged against a worst-case bound derived from the stop rule actually used (derivations next to the code; vacuous bounds are counted separately), bracketing judged on re-evaluated values
 // VF-ASSUME: the harness objective (value, gradient, Hessian of the stated families) and its rounding bound gamma=(n^2+4)u are correct;; bpp::Parameter/ParameterList/IntervalConstraint/AbstractParametrizable behave as documented (C01/C02's subject);; convergence bounds: one iteration of each optimiser is modelled as documented at convBound() (for conjugate gradient with n>=2 the iteration is assumed at least as good as one steepest-descent line minimisation; for the downhill simplex no bound follows from its spread criterion and the loosest factor of the family is used);; IEEE double arithmetic without contraction
 // VF-TECHNIQUE: bounded-exhaustive configuration enumeration on the real optimisers with a recording objective and analytic reference (minimiser, spectrum) of integer quadratics
@@ -403,7 +403,7 @@ static void judge(const Cfg& cf, vf::Case& c, bool sampleIt, bool twice) {
   // (3) budget: no step is started once the optimiser's own evaluation counter has reached the budget (counter at the start of step k+1 = counter after step k, + 1)
   for (size_t k = 0; k + 1 <= r.counts.size(); ++k) {
     unsigned atStart = (k == 0) ? 1u : r.counts[k - 1] + 1u;
-    if (!(atStart < (unsigned)cf.bud)) { c.fail("budget|step-started-after-budget-exhausted|" + on, in + ": step " + str(k + 1) + " started with counter " + str(atStart) + " >= budget " + str(cf.bud)); break; }
+    if (!(atStart < (unsigned)cf.bud)) { c.fail("budget|step-started-after-budget-exhausted|AbstractOptimizer::optimize",   /* the step loop of every optimiser here is AbstractOptimizer::optimize */ in + ": step " + str(k + 1) + " started with counter " + str(atStart) + " >= budget " + str(cf.bud)); break; }
   }
   c.tag(r.tolReached ? "stopped:tolerance" : "stopped:budget");
   if (r.obj->nEval > 4 * (size_t)cf.bud + 64) c.tag("diag:true-evaluations>4x-budget");
@@ -552,5 +552,7 @@ int main(int argc, char** argv) {
   R.note("keep policy with constraints: a ConstraintException leaving optimize() is the documented behaviour of Parameter::setValue and is tagged, not judged; under none/auto/ignore any exception is a violation");
   R.note("convergence is judged only for runs that stopped through their stop rule with the large budget, on quadratics, unconstrained or with a box that no evaluation came within 1e-5 of ('without active constraints' resolved towards the code); box-touching runs that end beyond the bound are counted under diag:bound-touched-and-stopped-far");
   R.note("the starting point of the interval-based 1-D optimisers is the parameter value handed to init(); the initial interval is (s, s+0.01) or (s-1, s+1) (outward bracketing) and (-4,4) or (s-5,s+5) (inward scan)");
+  R.note("convergence of the meta-optimiser compositions and of the backtracking line search along a non-Newton direction is not judged (no bound derived); they are judged on descent, value consistency, budget and feasibility");
+  R.note("a downhill-simplex convergence failure is classified by cause from the optimiser's state: 'stop-rule-not-satisfied-by-final-simplex' when the spread of the vertex values at the stop is not below the tolerance (stale vertex indices in the stop test), 'stopped-far-from-minimiser' when it is (the spread criterion itself is met by a simplex straddling the minimiser)");
   return R.finish();
 }
